@@ -80,6 +80,8 @@ def r_stmts(stmts, op, ind, out):
     if k == "assign":
       # an optional 4th element overrides the assignment operator (C09 defect injection)
       out.append("%s%s %s %s" % (" " * ind, r_path(st[1]), st[3] if len(st) > 3 else op, r_expr(st[2])))
+    elif k == "call":
+      out.append("%s%s(%s)" % (" " * ind, st[1], ", ".join(r_expr(x) for x in (st[2] if len(st) > 2 else []))))
     elif k == "tmp":
       # optional 4th element: more names of a chained assignment (a = b = expr)
       out.append("%s%s = %s" % (" " * ind, " = ".join([st[1]] + list(st[3] if len(st) > 3 else [])), r_expr(st[2])))
@@ -154,7 +156,12 @@ def source(spec):
     for fn in cd.get("funcs", []):
       body.append("@s.func")
       body.append("def %s(%s):" % (fn["name"], ", ".join(p[0] for p in fn["params"])))
-      body.append("  return %s" % r_expr(fn["ret"]))
+      if fn.get("stmts"):          # helpers that write signals (C09 injections): statements, then the return
+        sub = []
+        r_stmts(fn["stmts"], "@=", 2, sub)
+        body.extend(sub)
+      if fn.get("ret") is not None:
+        body.append("  return %s" % r_expr(fn["ret"]))
     for it in [x for x in cd["items"] if x["k"] != "constraint"] + [x for x in cd["items"] if x["k"] == "constraint"]:
       k = it["k"]
       if k == "connect":
